@@ -336,6 +336,12 @@ class LineWorld(CtorWorld):
             return True
         return super().contains(ip, container, x, node)
 
+    def truth_of(self, ip, v):
+        if isinstance(v, Tok) and (v.conv or v.ranked):
+            # a converted field is whatever the converter made of it: int("0") and the rank of the smallest timestamp are falsy
+            return not self.choose(("zero-valued-field", v.name))
+        return super().truth_of(ip, v)
+
     def truthy_len(self, v):
         return None
 
@@ -1245,6 +1251,7 @@ def check_event_logs(cc, cls):
             def once(ch):
                 cfg = dict(cls=cls, directed=directed, removal=True, exists=False, closed=False, L="uv")
                 w = LogWorld(cfg, ot, ch, cc.all_methods[cls], cc.all_methods)
+                w.lazy_zero_window = (0, 10)        # a reader that looks at the truth of an instant: the log is also read with t+k == 0
                 ip = CtorInterp(w, ot, max_depth=6)
                 env = {"lines": ListObj(list(lines)), "comments": Const("#"), "directed": Const(directed), "delimiter": NONE,
                        "nodetype": NONE, "timestamptype": Converter("timestamptype"), "keys": NONE}
@@ -1256,7 +1263,9 @@ def check_event_logs(cc, cls):
                 cc.n_runs += 1
                 if any(v for k, v in ch.items() if isinstance(k, tuple) and k[0].startswith("conversion")):
                     continue
-                wit = "%s%s | log: %s" % (label, ", '-' rows in the other orientation" if swap_minus else "", " / ".join("%s %s %s t%+d" % e for e in events))
+                zero = next((" | the literal 0 %s" % ("far below the log" if k[0] == "zero-far-below" else ("far above the log" if k[0] == "zero-far-above" else "= t%+d" % k[2]))
+                             for k, v in ch.items() if v and isinstance(k, tuple) and str(k[0]).startswith("zero-")), "")
+                wit = "%s%s%s | log: %s" % (label, ", '-' rows in the other orientation" if swap_minus else "", zero, " / ".join("%s %s %s t%+d" % e for e in events))
                 if kind == "raise":
                     cc.add("C10.log", construct, "raises:%s" % val.exc, "replaying the log raises %s (%s)" % (val.exc, val.detail), wit,
                            getattr(val.node, "lineno", 0))
